@@ -427,6 +427,13 @@ def r7_typed_front_ends(ctx):
                 ctx.ok("typed|%s|product-checked" % short, f.where(ar[0].block), "size_of::<T>().checked_mul(count), a failed product panics")
             else:
                 ctx.bad("typed|%s|product-can-wrap" % short, f.where(ar[0].block), "alloc_uninit_slice computes size_of::<T>() * count with an operator that wraps in a build without overflow checks (the release profile): a count above usize::MAX / size_of::<T>() is served from a few bytes and the caller gets a slice of `count` elements over memory it does not own, instead of a clean failure")
+        # ... of the element type itself: `align_of::<usize>()` prints the same and is right only for word-aligned types
+        ao = [c for c in f.calls() if (c.callee or "").endswith("mem::align_of")]
+        so = [c for c in f.calls() if (c.callee or "").endswith("mem::size_of")]
+        gen = lambda c: [str(x) for x in (f.blocks[c.block]["t"].get("gargs") or f.blocks[c.block]["t"].get("res_args") or [])]
+        tparam = [g for c in so for g in gen(c)][:1]
+        if ao and tparam and any(gen(c)[:1] != tparam for c in ao):
+            ctx.bad("typed|%s|alignment-of|%s" % (short, ",".join(gen(ao[0]))[:20]), f.where(ao[0].block), "%s::<T> aligns its block as align_of::<%s>() while it sizes it as size_of::<%s>(): a type aligned more strictly than that (u128, #[repr(align(64))]) comes back misaligned" % (short, ",".join(gen(ao[0])), ",".join(tparam)))
         if size in (want_size, mirror) and align == "align_of()":
             ctx.ok("typed|%s|request" % short, f.where(ar[0].block), "alloc_raw(%s, %s)" % (size, align))
         else:
@@ -647,6 +654,13 @@ def r11_growth_is_reserved_before_the_raw_copy(ctx):
             facts = [(op, sh(x), sh(y)) for op, x, y, S in cmp_facts(fn, c.block)]
             key = "reserve|%s|guard" % parent_fn(fn.id).split("::")[-1]
             exact = ("Gt", X, Y) in facts or ("Lt", Y, X) in facts
+            # the pointer the copies go through is taken after the reserve: a reserve may move the buffer, and a pointer
+            # obtained before it points into the old block (and, after the move, over whatever follows it)
+            ptrs = [q for q in fn.calls() if (q.callee or "").split("::")[-1] in ("as_mut_ptr", "as_ptr") and q.args and sh(ne(fn.deep(q.args[0]))).replace("&mut ", "").replace(" ", "") == sh(ne(fn.deep(c.args[0]))).replace("&mut ", "").replace(" ", "")]
+            stale = [q for q in ptrs if c.block in fn.reach_from_succ(q.block) or q.block == c.block and False]
+            if stale:
+                ctx.bad("reserve|%s|pointer-taken-before" % parent_fn(fn.id).split("::")[-1], fn.where(stale[0].block), "%s takes the buffer's pointer before it reserves room: when the reserve has to move the buffer (the string is not the arena's last block) the copies go through the stale pointer into the old block and over its neighbour" % parent_fn(fn.id).split("::")[-1])
+                continue
             if exact and all(fn.dominates(c.block, r.block) or not (c.block in fn.reach([r.block])) for r in raw):
                 ctx.ok(key, fn.where(c.block), "reserve(%s - %s) exactly when %s > %s, before the raw copies" % (X, Y, X, Y))
             elif not facts:
@@ -745,4 +759,7 @@ EXPLANATION += (
 )
 EXPLANATION += (
     ' Round 6: R5 a scratch borrow records the watermark itself as its mark; R3 the address test of the in-place path uses the low-bit mask align - 1, and zero fills are unconditional on the successful path; R13 the end of a request is a checked sum and the commit rounding follows the capacity test (D47 repaired).'
+)
+EXPLANATION += (
+    " Round 7: R7 the alignment is taken of the same type parameter as the size; R11 the buffer's pointer is taken after the reserve."
 )
